@@ -27,6 +27,20 @@ _K2_NOTE = ("Trusted: the rxvc VC generator; z3/cvc5; the spec machines in /veri
 _K2_TECH = "K2 class refinement against a spec machine with the call-out discipline (invariant at every call-out), SMT-discharged"
 
 CHECKS_K1 = {
+    "C07": {
+        "text": "K8 lemma over the C05 contracts. (1) Closed forms of the stage operators (take, skip, take_last, skip_last) are proved by "
+                "snoc induction over their spec machines - the machines the real handlers are proved to refine in C05 - as sequence "
+                "equations for all histories. (2) The real slice_ and Observable.__getitem__ are executed symbolically with start, "
+                "stop, step each None or an arbitrary integer; on each path the recorded ops.* pipeline is composed over those closed "
+                "forms as index intervals plus the stride predicate obtained by evaluating the real lambda, and for arbitrary length n "
+                "and index idx: idx is emitted <=> idx in range(*slice(start,stop,step).indices(n)); emitted values are the source "
+                "elements; a stage never receives a negative count; step < 0 raises. Integer form source[i] = [list[i]] in range.",
+        "note": "Trusted: rxvc; z3/cvc5; Python's slice-index normalisation as encoded in natives.py_slice_bounds (the same function "
+                "the interpreter uses for list slicing); len(source) < sys.maxsize; map_indexed/map/take_while enter only through their "
+                "C05 list semantics (take_while for a predicate proved downward closed in the position). Source errors pass through "
+                "every stage by the C05 contracts (terminal pass-through). step = 0 is outside the property (the code treats it as 1).",
+        "technique": "K8 lemma: snoc-induction closed forms + interval composition over symbolic execution of slice_, SMT (LIA + sequences)",
+    },
     "C06": {
         "text": "As C05 for the aggregating operators. Operators with their own subscribe (scan, last/first/single_or_default_async, "
                 "to_iterable, extrema_by) are proved against their spec machines handler by handler. Composite operators (reduce, "
